@@ -16,6 +16,7 @@ class Ob:
     proved | violated | inconclusive | broken.  fn runs in a forked child."""
     def __init__(s, name, fn, sem, engine, desc, timeout=120, mem_gb=8, tier='quick', functions=(), bounds=None, assumptions=()):
         s.name = name; s.fn = fn; s.sem = sem; s.engine = engine; s.desc = desc; s.timeout = timeout; s.mem_gb = mem_gb
+        if timeout == 120 and hasattr(fn, 'cbmc_timeout'): s.timeout = fn.cbmc_timeout + 30
         s.tier = tier; s.functions = list(functions); s.bounds = bounds or {}; s.assumptions = list(assumptions)
 
 def _child(ob, ctx, q):
@@ -162,7 +163,7 @@ def main(argv=None):
                 if k: knownhits.append((o, k, msg)); rec['known_finding'] = k.get('id')
                 else: viol.append((o, path, msg))
             else:
-                rec['verdict'] = 'broken'; broken.append((o, 'counterexample did not reproduce against the real code: %s | cex=%s' % (msg, json.dumps(cex, default=str)[:600])))
+                rec['verdict'] = 'broken'; broken.append((o, 'counterexample did not reproduce against the real code: %s | failed: %s | cex=%s' % (msg, r.get('detail'), json.dumps({k: (v.get('repr', v) if isinstance(v, dict) else v) for k, v in (cex.get('inputs') or cex).items()} if isinstance(cex, dict) else cex, default=str)[:900])))
         elif v == 'proved': proved.append(o)
         elif v == 'inconclusive': inconc.append((o, r.get('detail')))
         else: broken.append((o, r.get('detail')))
